@@ -584,7 +584,7 @@ spif_str_prepend_char(spif_str_t self, spif_char_t c)
         self->size++;
         self->s = (spif_charptr_t) REALLOC(self->s, self->size);
     }
-    memmove(self->s + 1, self->s, self->len + 1);
+    memmove(self->s + 1, self->s, self->len);
     self->s[0] = (spif_uchar_t) c;
     return TRUE;
 }
